@@ -202,7 +202,7 @@ hide!(hide_0_2_s1_lp0, 0, 2, 1, 0);
 hide!(hide_34_26_s3_lp2, 34, 26, 3, 2);
 //@ props=C11,C12 tier=thorough unwind=42 stubs=md5 uwset=message/avp.rs@(1..n_chunks).rev()=3 witness=revealed cap=1800
 hide!(hide_13_16_s3_lp0, 13, 16, 3, 0);
-//@ props=C11,C12 tier=thorough unwind=52 stubs=md5 uwset=message/avp.rs@(1..n_chunks).rev()=4 witness=revealed cap=1800
+//@ props=C11,C12 tier=quick unwind=52 stubs=md5 uwset=message/avp.rs@(1..n_chunks).rev()=4 witness=revealed cap=1800
 hide!(hide_7_20_s3_lp12, 7, 20, 3, 12);
 //@ props=C11,C12 tier=thorough unwind=42 stubs=md5,utf8 uwset=message/avp.rs@(1..n_chunks).rev()=2 witness=revealed cap=1800
 hide!(hide_12_5_s3_lp1, 12, 5, 3, 1);
@@ -228,7 +228,7 @@ reveal!(reveal_32_s3, 32, 3);
 reveal!(reveal_31_s3, 31, 3);
 //@ props=C13,C12,C01 tier=thorough unwind=42 stubs=md5,decode uwset=message/avp.rs@(1..n_chunks).rev()=3 witness=rejected cap=1800
 reveal!(reveal_33_s3, 33, 3);
-//@ props=C13,C12,C01 tier=thorough unwind=51 stubs=md5,decode uwset=message/avp.rs@(1..n_chunks).rev()=4 witness=rejected,accepted cap=1800
+//@ props=C13,C12,C01 tier=quick unwind=51 stubs=md5,decode uwset=message/avp.rs@(1..n_chunks).rev()=4 witness=rejected,accepted cap=1800
 reveal!(reveal_48_s3, 48, 3);
 //@ props=C13,C12,C01 tier=thorough unwind=42 stubs=md5,decode uwset=message/avp.rs@(1..n_chunks).rev()=2 witness=rejected,accepted cap=1800
 reveal!(reveal_16_s0, 16, 0);
